@@ -81,6 +81,8 @@ def gen_pool(rng, big, allow_identifier_twins=True):
         nm, fa, fb = gen.concat_ambiguity_pairs()[rng.randrange(2)]
         pool["D0"] = [nm, fa]
         pool["D9"] = [nm, fb]
+    if rng.random() < 0.15:
+        pool["Z0"] = [rng.choice(["z/marker", pool["D0"][0]]), []]  # a legal type without fields
     if rng.random() < 0.35:
         # a holder whose child type occurs only nested
         pool["C0"] = ["nested/child", gen.gen_fields(rng, ["string", "varint", "boolean"], 1, 2)]
@@ -137,6 +139,13 @@ def generate(rng, tier, index):
         ops.append({"op": "write", "desc": k, "values": gen_values(rng, pool, k, big), "w": rng.choice([0, 0, 1])})
         if flush_every and (i + 1) % flush_every == 0:
             ops.append({"op": rng.choice(["fpflush", "fpflush", "flush"])})
+    if rng.random() < 0.06 and mode in ("cuts", "crash", "faultfree"):
+        # two equally sized frames of 64 KiB or more (a file stored in chunks): cuts inside them are sampled
+        size = rng.choice([65536, 66000, 70001])
+        pool["L0"] = ["big/chunk", [["varint", "n"], ["bytes", "data"]]]
+        for j in range(2):
+            blob = bytes([65 + j]) * size
+            ops.append({"op": "write", "desc": "L0", "values": [j, {"$b": blob.hex()}], "w": 0})
     if rng.random() < 0.85 or mode == "faultfree":
         if rng.random() < 0.5:
             ops.append({"op": "flush"})
